@@ -44,13 +44,15 @@ CONSTANTS N,          \* node ids 1..N; 0 is nil
           Maxima,     \* values SetMax may choose (the first one is the initial maximum)
           Adjust,     \* adjustments Climb may be given
           Freqs,      \* popularity estimates an eviction pass may see
+          Signed,     \* TRUE: a running total that went below zero compares as a negative number (the repaired code, finding F25; Caffeine keeps
+                      \* these totals in signed variables); FALSE: as a huge unsigned number (policy.go before the repair)
           Reorder,    \* TRUE: the second pending task may overtake the first
           KeepObs     \* TRUE: the records of the eviction callbacks / comparisons of the last operation stay in the state
 
 Ids == 1..N
 \* the running totals are unsigned in the code: a total that went below zero (a delete / update task applied before the add
 \* it follows) compares as a huge number until the missing task arrives
-U(a) == IF a < 0 THEN a + 1073741824 ELSE a
+U(a) == IF a < 0 /\ ~Signed THEN a + 1073741824 ELSE a
 Nil == 0
 QW == "W"
 QP == "P"
